@@ -24,8 +24,10 @@ TRUSTED = [
     "pole sets are known by construction (harness multiplies the factors in exact Fractions; the Lean "
     "side recomputes the product with ALV.C11.fromPoles and both are compared on every case)",
     "general-order Schur-Cohn equivalence (parcorStableSpec <-> all poles inside): the direction "
-    "'all |k|<1 => all poles inside' is proved for every order, the converse for orders 1 and 2; "
-    "the converse for order >= 3 is carried by this tie (Lean spec vs construction on every case)",
+    "'all |k|<1 => all poles inside' is proved for every order (schur_cohn_sufficient; for the constructed "
+    "family: unstable_gives_false), the converse for orders 1 and 2; the converse for order >= 3 "
+    "(PENDING defs SchurCohnFull / FromPolesStable) is carried by this tie: Lean spec verdict vs the "
+    "construction on every generated pole set",
 ]
 ASSUMPTIONS = [
     "leading (delay 0) coefficient of the step-down input is non-zero (ZFilter's constructor guarantees "
@@ -179,7 +181,7 @@ def generate(rng, tier, scale=1):
         cases.append(case_lev([F(1), F(2), F(3), F(4), F(5), F(3), F(2), F(1)], 7))
         for r in ([0, 1], [0, 0, 0], [1, 1, 1], [1, -1, 1, -1], [2, 1, 2, 1], [4, 2]):
             cases.append(case_lev([F(x) for x in r], len(r) - 1))
-    n = (140 if quick else 5000) * scale
+    n = (300 if quick else 12000) * scale
     # --- reflection vectors -------------------------------------------------------------------
     for _ in range(n):
         order = rng.choice([1, 2, 3, 3, 4, 5, 6, 8, rng.randint(1, 12)])
